@@ -128,3 +128,243 @@ package rollout
 // the batch that BatchRelease will roll is computed with round-up (control.CalculateBatchReplicas); a step whose rounded-up
 // replica count covers the whole workload replaces every stable pod, so the stable Service must be un-pinned first
 //@ ensures {C04} full_replacement_unpins_first: #upgrade > 0 && st0(c) == S_Init() && old(stepHasTraffic(c)) && old(scaled(steps(c)[idx0(c) - 1].Replicas.Type, steps(c)[idx0(c) - 1].Replicas.IntVal, steps(c)[idx0(c) - 1].Replicas.StrVal, c.Workload.Replicas, true)) >= old(c.Workload.Replicas) && old(scaledOk(steps(c)[idx0(c) - 1].Replicas.Type, steps(c)[idx0(c) - 1].Replicas.StrVal)) && old(realPartitionSpec(c.Rollout)) ==> #restoreStable == 1 && !#restoreStable.ret0 && #restoreStable.ret1 == nil
+
+// ---------- finalising task order (C04, C05, C10) ----------
+
+//@ define T_None() = ""
+//@ define T_RouteStable() = v1beta1.FinalisingStepRouteTrafficToStable
+//@ define T_RouteNew() = v1beta1.FinalisingStepRouteTrafficToNew
+//@ define T_RestoreSvc() = v1beta1.FinalisingStepRestoreStableService
+//@ define T_RemoveCanary() = v1beta1.FinalisingStepRemoveCanaryService
+//@ define T_Resume() = v1beta1.FinalisingStepResumeWorkload
+//@ define T_Release() = v1beta1.FinalisingStepReleaseWorkloadControl
+//@ define T_End() = v1beta1.FinalisingStepTypeEnd
+
+// specification of the task successor function for the canary manager
+//@ define nextCanaryRB(cur) = ite(cur == T_None(), T_RouteStable(), ite(cur == T_RouteStable(), T_Resume(), ite(cur == T_Resume(), T_Release(), ite(cur == T_Release(), T_RestoreSvc(), ite(cur == T_RestoreSvc(), T_RemoveCanary(), T_End())))))
+//@ define nextCanaryOK(cur) = ite(cur == T_None(), T_RestoreSvc(), ite(cur == T_RestoreSvc(), T_RouteStable(), ite(cur == T_RouteStable(), T_RemoveCanary(), ite(cur == T_RemoveCanary(), T_Resume(), ite(cur == T_Resume(), T_Release(), T_End())))))
+//@ define nextCanary(reason, cur) = ite(reason == v1beta1.FinaliseReasonRollback, nextCanaryRB(cur), nextCanaryOK(cur))
+
+//@ func nextCanaryTask
+//@ props C04 C05 C10
+//@ ensures follows_spec: result == nextCanary(reason, currentTask)
+//@ loop 1 invariant -1 <= rangeindex && rangeindex < len(taskSequence) && len(taskSequence) == 5
+//@ loop 1 invariant forall j :: 0 <= j && j <= rangeindex ==> !(currentTask == taskSequence[j] && j < 4)
+//@ pure
+
+// the orders the properties ask for, as consequences of the specification (every reason: routes are withdrawn before the
+// canary Service is removed; rollback: traffic goes back to stable before anything else; otherwise: the stable Service is
+// un-pinned before the workload is resumed; all five cleanup tasks run exactly once and the chain ends)
+//@ lemma {C04,C05,C10} canary_rollback_chain: nextCanaryRB(T_None()) == T_RouteStable() && nextCanaryRB(T_RouteStable()) == T_Resume() && nextCanaryRB(T_Resume()) == T_Release() && nextCanaryRB(T_Release()) == T_RestoreSvc() && nextCanaryRB(T_RestoreSvc()) == T_RemoveCanary() && nextCanaryRB(T_RemoveCanary()) == T_End()
+//@ lemma {C04,C05,C10} canary_default_chain: nextCanaryOK(T_None()) == T_RestoreSvc() && nextCanaryOK(T_RestoreSvc()) == T_RouteStable() && nextCanaryOK(T_RouteStable()) == T_RemoveCanary() && nextCanaryOK(T_RemoveCanary()) == T_Resume() && nextCanaryOK(T_Resume()) == T_Release() && nextCanaryOK(T_Release()) == T_End()
+
+// cursor positions that lie after RouteTrafficToStable / after RestoreStableService in the chain of the given reason
+//@ define isRB(c) = c.FinalizeReason == v1beta1.FinaliseReasonRollback
+//@ define afterRoute(c, step) = ite(isRB(c), step == T_Resume() || step == T_Release() || step == T_RestoreSvc() || step == T_RemoveCanary() || step == T_End(), step == T_RemoveCanary() || step == T_Resume() || step == T_Release() || step == T_End())
+//@ define afterUnpin(c, step) = ite(isRB(c), step == T_RemoveCanary() || step == T_End(), step == T_RouteStable() || step == T_RemoveCanary() || step == T_Resume() || step == T_Release() || step == T_End())
+// step-inductive invariant over reconciles (DESIGN.md section 8, C04): the persisted cursor records which cleanup
+// tasks have completed; assumed when a reconcile starts, proved when it ends
+//@ define cursorInv(c, step) = (afterRoute(c, step) ==> @routesWithdrawn) && (afterUnpin(c, step) ==> @stableUnpinned)
+
+// tasks that take pods away are only allowed once traffic no longer depends on them
+//@ func finalizingBatchRelease
+//@ props C04 C10
+//@ requires cli != nil && c != nil && c.Rollout != nil
+//@ requires unpinned_or_withdrawn_first: ite(isRB(c), @routesWithdrawn, @stableUnpinned)
+
+//@ define hasTR(c) = len(ite(strat(c).BlueGreen != nil, strat(c).BlueGreen.TrafficRoutings, strat(c).Canary.TrafficRoutings)) > 0
+
+//@ func removeBatchRelease
+//@ props C04 C10
+//@ requires cli != nil && c != nil && c.Rollout != nil && (strat(c).BlueGreen != nil || strat(c).Canary != nil)
+//@ requires routes_withdrawn_first: @routesWithdrawn || !hasTR(c)
+
+//@ func (*canaryReleaseManager).doCanaryFinalising
+//@ props C04 C05 C10 C18
+//@ requires m != nil && m.Client != nil && m.trafficRoutingManager != nil && c != nil && c.Rollout != nil && c.NewStatus != nil
+//@ requires c.NewStatus.CanaryStatus != nil ==> strat(c).Canary != nil && strat(c).BlueGreen == nil && len(strat(c).Canary.Steps) >= 1
+//@ requires inv: c.NewStatus.CanaryStatus != nil ==> cursorInv(c, cst(c).FinalisingStep)
+//@ ensures inv_preserved: c.NewStatus.CanaryStatus != nil ==> cursorInv(c, cst(c).FinalisingStep)
+//@ ensures cursor_moves_along_chain: c.NewStatus.CanaryStatus != nil && cst(c).FinalisingStep != old(cst(c).FinalisingStep) ==> cst(c).FinalisingStep == nextCanary(c.FinalizeReason, old(cst(c).FinalisingStep)) || (old(cst(c).FinalisingStep) != T_None() && cst(c).FinalisingStep == nextCanary(c.FinalizeReason, T_None()))
+//@ ensures done_means_end: result0 ==> result1 == nil && (c.NewStatus.CanaryStatus == nil || cst(c).FinalisingStep == T_End())
+//@ ensures one_task_per_call: #restoreGateway + #restoreStable + #removeCanarySvc + #finalizeBR + #removeBR <= 1
+//@ ensures task_matches_cursor: (#restoreGateway == 1 ==> old(cst(c).FinalisingStep) == T_RouteStable() || (old(cst(c).FinalisingStep) == T_None() && nextCanary(c.FinalizeReason, T_None()) == T_RouteStable())) && (#removeCanarySvc == 1 ==> old(cst(c).FinalisingStep) == T_RemoveCanary()) && (#finalizeBR == 1 ==> old(cst(c).FinalisingStep) == T_Resume()) && (#removeBR == 1 ==> old(cst(c).FinalisingStep) == T_Release())
+//@ ensures advance_only_on_completion: c.NewStatus.CanaryStatus != nil && old(cst(c).FinalisingStep) == T_RouteStable() && cst(c).FinalisingStep != T_RouteStable() ==> #restoreGateway == 1 && !#restoreGateway.ret0 && #restoreGateway.ret1 == nil
+
+// ---------- blue-green release manager (same sub-state machine; its own task tables) ----------
+
+//@ track (*blueGreenReleaseManager).doCanaryJump as jumpBG
+//@ track (*blueGreenReleaseManager).doCanaryUpgrade as upgradeBG
+//@ track (*blueGreenReleaseManager).doCanaryPaused as pausedBG
+//@ track github.com/openkruise/rollouts/pkg/trafficrouting.(*Manager).RouteAllTrafficToNewVersion as routeNew
+
+//@ define bst(c) = c.NewStatus.BlueGreenStatus
+//@ define bsteps(c) = c.Rollout.Spec.Strategy.BlueGreen.Steps
+//@ define wfBGCtx(c) = c != nil && c.Rollout != nil && c.NewStatus != nil && c.NewStatus.BlueGreenStatus != nil && c.Workload != nil && c.Rollout.Spec.Strategy.BlueGreen != nil
+//@ define bidxInRange(c) = 1 <= bst(c).CurrentStepIndex && bst(c).CurrentStepIndex <= len(bsteps(c))
+//@ define bstepHasTraffic(c) = bsteps(c)[bst(c).CurrentStepIndex - 1].Traffic != nil || len(bsteps(c)[bst(c).CurrentStepIndex - 1].Matches) != 0
+//@ define bnextIdx(c, i) = ite(i >= len(bsteps(c)), 0 - 1, i + 1)
+
+//@ func (*blueGreenReleaseManager).doCanaryJump
+//@ props C02 C09
+//@ requires wfBGCtx(c) && bidxInRange(c)
+//@ requires next_in_range: bst(c).NextStepIndex <= len(bsteps(c))
+//@ ensures no_jump_keeps_state: !jumped ==> bst(c).CurrentStepIndex == old(bst(c).CurrentStepIndex) && bst(c).CurrentStepState == old(bst(c).CurrentStepState) && bst(c).NextStepIndex == old(bst(c).NextStepIndex)
+//@ ensures jump_only_on_request: jumped ==> old(bst(c).NextStepIndex) > 0 && old(bst(c).NextStepIndex) != bnextIdx(c, old(bst(c).CurrentStepIndex)) && bst(c).CurrentStepIndex == old(bst(c).NextStepIndex)
+//@ ensures jump_lands_in_range: jumped ==> 1 <= bst(c).CurrentStepIndex && bst(c).CurrentStepIndex <= len(bsteps(c))
+//@ ensures jump_state: jumped ==> bst(c).CurrentStepState == v1beta1.CanaryStepStateInit || bst(c).CurrentStepState == v1beta1.CanaryStepStateTrafficRouting
+//@ ensures jump_skips_upgrade_only_for_same_replicas: jumped && bst(c).CurrentStepState == v1beta1.CanaryStepStateTrafficRouting ==> iosPtrEq(bsteps(c)[bst(c).CurrentStepIndex - 1].Replicas, bsteps(c)[old(bst(c).CurrentStepIndex) - 1].Replicas)
+
+//@ func (*blueGreenReleaseManager).doCanaryPaused
+//@ props C02
+//@ requires wfBGCtx(c) && bidxInRange(c) && bst(c).LastUpdateTime != nil
+//@ ensures approval_or_duration: result0 ==> result1 == nil && bsteps(c)[old(bst(c).CurrentStepIndex) - 1].Pause.Duration != nil
+//@ ensures never_errors: result1 == nil
+//@ ensures state_untouched: bst(c).CurrentStepIndex == old(bst(c).CurrentStepIndex) && bst(c).CurrentStepState == old(bst(c).CurrentStepState)
+
+//@ func (*blueGreenReleaseManager).doCanaryUpgrade
+//@ props C02 C03
+//@ requires m != nil && wfBGCtx(c)
+//@ ensures done_means_batch_ready: result0 ==> result1 == nil && #runBR == 1 && #runBR.ret0 && #runBR.ret2 == nil && #runBR.ret1 != nil && as(#runBR.ret1, "*v1beta1.BatchRelease").Status.CanaryStatus.CurrentBatchState == v1beta1.ReadyBatchState && as(#runBR.ret1, "*v1beta1.BatchRelease").Status.CanaryStatus.CurrentBatch + 1 >= bst(c).CurrentStepIndex && as(#runBR.ret1, "*v1beta1.BatchRelease").Generation == as(#runBR.ret1, "*v1beta1.BatchRelease").Status.ObservedGeneration
+//@ ensures batch_is_step: #runBR == 1 && #runBR.arg3 == old(bst(c).CurrentStepIndex)
+//@ ensures state_untouched: bst(c).CurrentStepIndex == old(bst(c).CurrentStepIndex) && bst(c).CurrentStepState == old(bst(c).CurrentStepState)
+
+//@ define bst0(c) = old(bst(c).CurrentStepState)
+//@ define bst1(c) = bst(c).CurrentStepState
+//@ define bidx0(c) = old(bst(c).CurrentStepIndex)
+//@ define bidx1(c) = bst(c).CurrentStepIndex
+//@ define jumpedBG() = #jumpBG == 1 && #jumpBG.ret0
+//@ define upgradedBG() = #upgradeBG == 1 && #upgradeBG.ret0 && #upgradeBG.ret1 == nil
+//@ define pausedBGOK() = #pausedBG == 1 && #pausedBG.ret0 && #pausedBG.ret1 == nil
+
+//@ func (*blueGreenReleaseManager).runCanary
+//@ props C02 C03 C04
+//@ requires m != nil && m.trafficRoutingManager != nil && wfBGCtx(c) && bidxInRange(c)
+//@ requires next_in_range: bst(c).NextStepIndex <= len(bsteps(c))
+//@ requires bst(c).LastUpdateTime != nil
+//@ requires replicas_set: forall k :: 0 <= k && k < len(bsteps(c)) ==> bsteps(c)[k].Replicas != nil
+//@ ensures index_moves_only_by_jump_or_ready: bidx1(c) != bidx0(c) ==> jumpedBG() || (bst0(c) == S_Ready() && bidx1(c) == bidx0(c) + 1 && bidx0(c) < len(bsteps(c)) && bst1(c) == S_Init() && result == nil)
+//@ ensures ready_needs_pause_gate: bst1(c) == S_Ready() && bst0(c) != S_Ready() && !jumpedBG() ==> bst0(c) == S_Paused() && pausedBGOK()
+//@ ensures paused_after_analysis: bst1(c) == S_Paused() && bst0(c) != S_Paused() && !jumpedBG() ==> bst0(c) == S_Metrics()
+//@ ensures analysis_after_routing: bst1(c) == S_Metrics() && bst0(c) != S_Metrics() && !jumpedBG() ==> bst0(c) == S_Traffic() && routedOK()
+//@ ensures routing_after_upgrade: bst1(c) == S_Traffic() && bst0(c) != S_Traffic() && !jumpedBG() ==> (bst0(c) == S_Init() || bst0(c) == S_Upgrade()) && upgradedBG()
+//@ ensures completed_only_from_ready: bst1(c) == S_Completed() && bst0(c) != S_Completed() && !jumpedBG() ==> bst0(c) == S_Ready() && bidx0(c) >= len(bsteps(c))
+//@ ensures upgrade_only_from_init: bst1(c) == S_Upgrade() && bst0(c) != S_Upgrade() && !jumpedBG() ==> bst0(c) == S_Init()
+//@ ensures init_only_from_ready: bst1(c) == S_Init() && bst0(c) != S_Init() && !jumpedBG() ==> bst0(c) == S_Ready()
+//@ ensures traffic_written_only_in_routing_state: #doTR > 0 ==> bst0(c) == S_Traffic() && !jumpedBG()
+//@ ensures pods_upgraded_only_in_upgrade_states: #upgradeBG > 0 ==> (bst0(c) == S_Init() || bst0(c) == S_Upgrade()) && !jumpedBG()
+//@ ensures jump_does_nothing_else: jumpedBG() ==> #upgradeBG == 0 && #doTR == 0 && #pausedBG == 0 && result == nil
+//@ ensures {C03} stable_pinned_before_first_upgrade: #upgradeBG > 0 && bst0(c) == S_Init() && bidx0(c) == 1 && old(bstepHasTraffic(c)) ==> #patchStable == 1 && !#patchStable.ret0 && #patchStable.ret1 == nil
+
+// task successor specification for blue-green
+//@ define nextBGSuccess(cur) = ite(cur == T_None(), T_RouteNew(), ite(cur == T_RouteNew(), T_RestoreSvc(), ite(cur == T_RestoreSvc(), T_Resume(), ite(cur == T_Resume(), T_RouteStable(), ite(cur == T_RouteStable(), T_RemoveCanary(), ite(cur == T_RemoveCanary(), T_Release(), T_End()))))))
+//@ define nextBGRollback(cur) = ite(cur == T_None(), T_RouteStable(), ite(cur == T_RouteStable(), T_Resume(), ite(cur == T_Resume(), T_RestoreSvc(), ite(cur == T_RestoreSvc(), T_RemoveCanary(), ite(cur == T_RemoveCanary(), T_Release(), T_End())))))
+//@ define nextBGOther(cur) = ite(cur == T_None(), T_RestoreSvc(), ite(cur == T_RestoreSvc(), T_RouteStable(), ite(cur == T_RouteStable(), T_RemoveCanary(), ite(cur == T_RemoveCanary(), T_Resume(), ite(cur == T_Resume(), T_Release(), T_End())))))
+//@ define nextBG(reason, cur) = ite(reason == v1beta1.FinaliseReasonSuccess, nextBGSuccess(cur), ite(reason == v1beta1.FinaliseReasonRollback, nextBGRollback(cur), nextBGOther(cur)))
+
+//@ func nextBlueGreenTask
+//@ props C04 C05 C10
+//@ ensures follows_spec: result == nextBG(reason, currentTask)
+//@ loop 1 invariant -1 <= rangeindex && rangeindex < len(taskSequence) && (len(taskSequence) == 5 || len(taskSequence) == 6)
+//@ loop 1 invariant forall j :: 0 <= j && j <= rangeindex ==> !(currentTask == taskSequence[j] && j < len(taskSequence) - 1)
+//@ pure
+
+//@ lemma {C04,C05,C10} bluegreen_success_chain: nextBGSuccess(T_None()) == T_RouteNew() && nextBGSuccess(T_RouteNew()) == T_RestoreSvc() && nextBGSuccess(T_RestoreSvc()) == T_Resume() && nextBGSuccess(T_Resume()) == T_RouteStable() && nextBGSuccess(T_RouteStable()) == T_RemoveCanary() && nextBGSuccess(T_RemoveCanary()) == T_Release() && nextBGSuccess(T_Release()) == T_End()
+//@ lemma {C04,C05,C10} bluegreen_rollback_chain: nextBGRollback(T_None()) == T_RouteStable() && nextBGRollback(T_RouteStable()) == T_Resume() && nextBGRollback(T_Resume()) == T_RestoreSvc() && nextBGRollback(T_RestoreSvc()) == T_RemoveCanary() && nextBGRollback(T_RemoveCanary()) == T_Release() && nextBGRollback(T_Release()) == T_End()
+//@ lemma {C04,C05,C10} bluegreen_other_chain: nextBGOther(T_None()) == T_RestoreSvc() && nextBGOther(T_RestoreSvc()) == T_RouteStable() && nextBGOther(T_RouteStable()) == T_RemoveCanary() && nextBGOther(T_RemoveCanary()) == T_Resume() && nextBGOther(T_Resume()) == T_Release() && nextBGOther(T_Release()) == T_End()
+
+//@ define isSuccess(c) = c.FinalizeReason == v1beta1.FinaliseReasonSuccess
+//@ define bgAfterRoute(c, step) = ite(isSuccess(c), step == T_RemoveCanary() || step == T_Release() || step == T_End(), ite(isRB(c), step == T_Resume() || step == T_RestoreSvc() || step == T_RemoveCanary() || step == T_Release() || step == T_End(), step == T_RemoveCanary() || step == T_Resume() || step == T_Release() || step == T_End()))
+//@ define bgAfterUnpin(c, step) = ite(isSuccess(c), step == T_Resume() || step == T_RouteStable() || step == T_RemoveCanary() || step == T_Release() || step == T_End(), ite(isRB(c), step == T_RemoveCanary() || step == T_Release() || step == T_End(), step == T_RouteStable() || step == T_RemoveCanary() || step == T_Resume() || step == T_Release() || step == T_End()))
+//@ define bgCursorInv(c, step) = (bgAfterRoute(c, step) ==> @routesWithdrawn) && (bgAfterUnpin(c, step) ==> @stableUnpinned)
+
+//@ func (*blueGreenReleaseManager).doCanaryFinalising
+//@ props C04 C05 C10 C18
+//@ requires m != nil && m.Client != nil && m.trafficRoutingManager != nil && c != nil && c.Rollout != nil && c.NewStatus != nil
+//@ requires c.NewStatus.BlueGreenStatus != nil ==> strat(c).BlueGreen != nil && len(strat(c).BlueGreen.Steps) >= 1
+//@ requires inv: c.NewStatus.BlueGreenStatus != nil ==> bgCursorInv(c, bst(c).FinalisingStep)
+// the persisted cursor belongs to the chain of the current reason (the reason does not change while finalising)
+//@ requires cursor_in_chain: c.NewStatus.BlueGreenStatus != nil && bst(c).FinalisingStep == T_RouteNew() ==> isSuccess(c)
+//@ ensures inv_preserved: c.NewStatus.BlueGreenStatus != nil ==> bgCursorInv(c, bst(c).FinalisingStep)
+//@ ensures cursor_moves_along_chain: c.NewStatus.BlueGreenStatus != nil && bst(c).FinalisingStep != old(bst(c).FinalisingStep) ==> bst(c).FinalisingStep == nextBG(c.FinalizeReason, old(bst(c).FinalisingStep)) || (old(bst(c).FinalisingStep) != T_None() && bst(c).FinalisingStep == nextBG(c.FinalizeReason, T_None()))
+//@ ensures done_means_end: result0 ==> result1 == nil && (c.NewStatus.BlueGreenStatus == nil || bst(c).FinalisingStep == T_End())
+//@ ensures one_task_per_call: #restoreGateway + #restoreStable + #removeCanarySvc + #finalizeBR + #removeBR + #routeNew <= 1
+//@ ensures advance_only_on_completion: c.NewStatus.BlueGreenStatus != nil && old(bst(c).FinalisingStep) == T_RouteStable() && bst(c).FinalisingStep != T_RouteStable() ==> #restoreGateway == 1 && !#restoreGateway.ret0 && #restoreGateway.ret1 == nil
+
+// ---------- progressing: dispatch order, pause, supersession, reset (C02, C10) ----------
+
+//@ track isRollingBackDirectly as rbDirect
+//@ track isRolloutPaused as isPaused
+//@ track isRollingBackInBatches as rbBatch
+//@ track isContinuousRelease as contRel
+//@ track isRolloutPlanChanged as planChanged
+//@ track (*RolloutReconciler).handleRollbackDirectly as hRB
+//@ track (*RolloutReconciler).handleRolloutPaused as hPaused
+//@ track (*RolloutReconciler).handleRollbackInBatches as hRBB
+//@ track (*RolloutReconciler).handleContinuousRelease as hCont
+//@ track (*RolloutReconciler).handleRolloutPlanChanged as hPlan
+//@ track (*RolloutReconciler).handleNormalRolling as hNormal
+//@ track (*RolloutReconciler).doProgressingReset as doReset
+//@ track (*RolloutReconciler).doProgressingInRolling as doInRolling
+//@ track progressingStateTransition as progTrans
+//@ track setRolloutSucceededCondition as setSucceeded
+//@ track github.com/openkruise/rollouts/api/v1beta1.(*RolloutStatus).Clear as clearStatus
+//@ track github.com/openkruise/rollouts/pkg/util/errors.NewBadRequestError as badReq
+//@ track (ReleaseManager).runCanary as runCanary
+//@ track (ReleaseManager).doCanaryJump as mgrJump
+
+//@ func isRolloutPaused
+//@ props C02
+//@ requires rollout != nil
+//@ ensures result == rollout.Spec.Strategy.Paused
+//@ pure
+
+//@ func (*RolloutReconciler).getReleaseManager
+//@ props C02 C09 C10
+//@ requires r != nil && rollout != nil && (rollout.Spec.Strategy.BlueGreen != nil || rollout.Spec.Strategy.Canary != nil)
+//@ ensures result1 == nil ==> result0 != nil
+//@ ensures always_found: result1 == nil
+
+//@ func (*RolloutReconciler).doProgressingInRolling
+//@ props C02 C10
+//@ requires r != nil && r.trafficRoutingManager != nil && c != nil && c.Rollout != nil && c.Workload != nil && c.NewStatus != nil && (strat(c).BlueGreen != nil || strat(c).Canary != nil)
+//@ requires len(allSteps(c)) >= 1
+//@ requires inv: resetCursorInv(c)
+//@ ensures rollback_first: #rbDirect == 1 && (#rbDirect.ret0 <==> #hRB == 1) && (#rbDirect.ret0 ==> #hPaused + #hRBB + #hCont + #hPlan + #hNormal == 0)
+//@ ensures paused_second: !#rbDirect.ret0 ==> #isPaused == 1 && (#isPaused.ret0 <==> #hPaused == 1) && (#isPaused.ret0 ==> #hRBB + #hCont + #hPlan + #hNormal == 0)
+//@ ensures batches_third: !#rbDirect.ret0 && !#isPaused.ret0 ==> #rbBatch == 1 && (#rbBatch.ret0 <==> #hRBB == 1) && (#rbBatch.ret0 ==> #hCont + #hPlan + #hNormal == 0)
+//@ ensures continuous_fourth: !#rbDirect.ret0 && !#isPaused.ret0 && !#rbBatch.ret0 ==> #contRel == 1 && (#contRel.ret0 <==> #hCont == 1) && (#contRel.ret0 ==> #hPlan + #hNormal == 0)
+//@ ensures plan_fifth: !#rbDirect.ret0 && !#isPaused.ret0 && !#rbBatch.ret0 && !#contRel.ret0 ==> #planChanged == 1 && (#planChanged.ret0 <==> #hPlan == 1) && (#planChanged.ret0 <==> #hNormal == 0)
+//@ ensures at_most_one_handler: #hRB + #hPaused + #hRBB + #hCont + #hPlan + #hNormal == 1
+
+//@ func (*RolloutReconciler).handleRolloutPaused
+//@ props C02
+//@ requires rollout != nil && newStatus != nil
+//@ ensures only_marks_paused: result == nil && #progTrans == 1 && #progTrans.arg2 == v1alpha1.ProgressingReasonPaused && #progTrans.arg0 == newStatus
+//@ ensures no_progress: newStatus.CanaryStatus == old(newStatus.CanaryStatus) && newStatus.BlueGreenStatus == old(newStatus.BlueGreenStatus)
+
+//@ func (*RolloutReconciler).handleRollbackDirectly
+//@ props C10
+//@ requires r != nil && rollout != nil && workload != nil && newStatus != nil
+//@ ensures cancels: result == nil && #progTrans == 1 && #progTrans.arg2 == v1alpha1.ProgressingReasonCancelling && #progTrans.arg0 == newStatus
+
+//@ func (*RolloutReconciler).handleContinuousRelease
+//@ props C10
+//@ requires r != nil && r.trafficRoutingManager != nil && c != nil && c.Rollout != nil && c.Workload != nil && c.NewStatus != nil && (strat(c).BlueGreen != nil || strat(c).Canary != nil)
+//@ requires len(allSteps(c)) >= 1
+//@ requires inv: resetCursorInv(c)
+//@ ensures bluegreen_refuses: old(strat(c).BlueGreen != nil) ==> result != nil && #badReq == 1 && #doReset == 0 && #clearStatus == 0 && #progTrans == 0
+//@ ensures canary_restarts_from_step_one: old(strat(c).BlueGreen == nil) && #doReset == 1 && #doReset.ret0 && #doReset.ret1 == nil ==> result == nil && #clearStatus == 1 && #progTrans == 1 && #progTrans.arg2 == v1alpha1.ProgressingReasonInitializing
+//@ ensures canary_waits_for_reset: old(strat(c).BlueGreen == nil) && #doReset == 1 && !(#doReset.ret0 && #doReset.ret1 == nil) ==> #clearStatus == 0 && #progTrans == 0
+
+// reset order for a superseded canary release: gateway first, then the BatchRelease, then the canary Service
+//@ define resetCursorInv(c) = substatus(c) != nil && (substatus(c).FinalisingStep == T_Release() || substatus(c).FinalisingStep == T_RemoveCanary()) ==> @routesWithdrawn
+
+//@ func (*RolloutReconciler).doProgressingReset
+//@ props C04 C10
+//@ requires r != nil && r.trafficRoutingManager != nil && c != nil && c.Rollout != nil && c.NewStatus != nil && (strat(c).BlueGreen != nil || strat(c).Canary != nil)
+//@ requires len(allSteps(c)) >= 1
+//@ requires inv: resetCursorInv(c)
+//@ ensures inv_preserved: resetCursorInv(c)
+//@ ensures gateway_before_release: old(hasTR(c)) && #removeBR > 0 ==> @routesWithdrawn
+//@ ensures done_means_all_done: result0 && old(hasTR(c)) && old(substatus(c)) != nil ==> result1 == nil && #removeCanarySvc == 1 && #removeCanarySvc.ret1 == nil
